@@ -70,6 +70,12 @@ def run(ctx):
         # coordinates of different magnitude: the nominal step log(1.718 + |x_j|) (at least 1) then differs between coordinates
         xscale = rng.choice([2.0, 2.0, 10.0, 100.0])
         x = np.array([rng.uniform(-xscale, xscale) for _ in range(n)])
+        # the dtype of x is not part of its value: float32 (values rounded to float32 first) and integer-typed arrays as well
+        xdtype = rng.choice(['float64', 'float64', 'float32', 'int'])
+        if xdtype == 'float32':
+            x = x.astype(np.float32)
+        elif xdtype == 'int':
+            x = np.array([rng.randint(-int(xscale), int(xscale)) for _ in range(n)])
         A = np.array([[rng.randint(-16, 16) / 4 for _ in range(n)] for _ in range(m)])
         b = np.array([rng.randint(-8, 8) / 2 for _ in range(m)])
         kind = rng.choice(['affine', 'affine', 'nonlinear', 'scalar', 'len1', 'matrix', 'matrix'])
@@ -82,7 +88,7 @@ def run(ctx):
             sk = {'step': MaxStepGenerator(base_step=1.0, step_ratio=rng.choice([1.6, 3.0]), num_steps=14)} if meth in ('central', 'forward', 'backward') \
                 else {'step': MinStepGenerator(step_ratio=rng.choice([1.6, 3.0]), num_extrap=4)}
         ctx.tried((n, m, meth, order, kind, tuple(x[:2]), str(sorted(sk))))
-        rep = dict(n=n, m=m, method=meth, order=order, kind=kind, x=x.tolist(),
+        rep = dict(n=n, m=m, method=meth, order=order, kind=kind, x=x.tolist(), x_dtype=str(x.dtype),
                    step_options=str({k: (v if not hasattr(v, 'step_ratio') else '%s(step_ratio=%s)' % (type(v).__name__, v.step_ratio)) for k, v in sk.items()}))
         try:
             with warnings.catch_warnings():
@@ -118,7 +124,11 @@ def run(ctx):
             ctx.violation('Jacobian shape is not (m, n) / (m, n, k)', got=list(J.shape), expected=list(exact.shape), **rep)
             continue
         err = np.abs(J - exact)
-        bound = tol if tol is not None else 1000 * np.asarray(info.error_estimate) + 1e-7 * (1 + np.abs(exact))
+        if xdtype == 'float32' and tol is not None:
+            # for a float32 x the library forms its steps in float32: their ratios are exact only to float32 rounding, and so is the
+            # result of a rule with more than one term (unchanged tree: up to 1.5e-7 relative); "exact to rounding" is then float32's
+            tol = 2e-6 * (1 + float(np.max(np.abs(exact))))
+        bound = tol if tol is not None else 1000 * np.asarray(info.error_estimate) + (1e-5 if xdtype == 'float32' else 1e-7) * (1 + np.abs(exact))
         if np.any(err > bound):
             ctx.violation('Jacobian entry differs from the exact partial derivative', got=J.tolist(), exact=exact.tolist(), **rep)
             continue
